@@ -1731,3 +1731,198 @@ func (p *Prog) statFresh() []Ob {
 	}
 	return obs
 }
+
+// ---------------------------------------------------------------------------
+// R20d CLOSE-BEFORE-REPLACE (C03, C08, C12): a segment reader replaces or removes the files of its own
+// segment only after it closed what it holds open on them (the mapped log and the loaded index); a
+// mapping that survives the replacement keeps answering from the old file with the new index.
+func (p *Prog) closeBeforeReplace() []Ob {
+	var obs []Ob
+	r := p.R
+	obs = append(obs, p.closeBeforeReplaceFor(r.SegReader, r.SRMessages, r.SRSegment, "(*"+pkgMessage+".Reader).Close")...)
+	obs = append(obs, p.closeBeforeReplaceFor(r.HeadWriter, r.HWMessages, r.HWSegment, "(*"+pkgMessage+".Writer).Close")...)
+	return obs
+}
+
+func (p *Prog) closeBeforeReplaceFor(owner *types.Named, handleField, segField *types.Var, closeName string) []Ob {
+	var obs []Ob
+	r := p.R
+	ea := p.ErrAtomsCached()
+	// full closers: methods of the owner that close the handle kept in handleField
+	closers := map[*ssa.Function]bool{}
+	for _, fn := range p.Funcs {
+		if !srcFunc(fn) || recvNamed(fn) != owner {
+			continue
+		}
+		for _, b := range fn.Blocks {
+			for _, ins := range b.Instrs {
+				if c, ok := ins.(*ssa.Call); ok && calleeName(c.Common()) == closeName {
+					if f, _ := loadedField(canon(c.Call.Args[0])); f == handleField {
+						closers[fn] = true
+					}
+				}
+			}
+		}
+	}
+	changesFiles := func(g *ssa.Function) bool {
+		for _, o := range p.fsOps(g) {
+			if o.op == "REMOVE" && o.a.kind == "seg" {
+				return true
+			}
+			if o.op == "RENAME" && o.b.kind == "seg" {
+				return true
+			}
+		}
+		return false
+	}
+	n := 0
+	for _, fn := range p.Funcs {
+		if !srcFunc(fn) || recvNamed(fn) != owner || closers[fn] {
+			continue
+		}
+		var closeCalls []*ssa.Call
+		for _, b := range fn.Blocks {
+			for _, ins := range b.Instrs {
+				if c, ok := ins.(*ssa.Call); ok && closers[c.Common().StaticCallee()] {
+					closeCalls = append(closeCalls, c)
+				}
+			}
+		}
+		k := 0
+		for _, b := range fn.Blocks {
+			for _, ins := range b.Instrs {
+				c, ok := ins.(*ssa.Call)
+				if !ok {
+					continue
+				}
+				g := c.Common().StaticCallee()
+				if g == nil || !inModule(g) || !changesFiles(g) {
+					continue
+				}
+				rn := recvNamed(g)
+				if rn != r.Segment && rn != r.RewriteSegment {
+					continue
+				}
+				own := false
+				for _, a := range c.Common().Args {
+					if f, _ := loadedField(canon(a)); f == segField {
+						own = true
+					}
+				}
+				if !own {
+					continue
+				}
+				n++
+				k++
+				ob := Ob{Rule: "R20", Inst: fmt.Sprintf("d:close-before-replace:%s#%d", funcLabel(fn), k), Props: []string{"C03", "C08", "C12"}, Pos: p.at(c), Func: funcLabel(fn), Nontrivial: true}
+				okC := false
+				for _, cc := range closeCalls {
+					if instrDominates(cc, c) && p.failureEdgeLeaves(ea, cc, c) {
+						okC = true
+						ob.Guards = append(ob.Guards, p.at(cc))
+					}
+				}
+				if okC {
+					ob.Status, ob.Msg = Discharged, "what was held open on the segment's files was closed (and that succeeded) before "+shortCallee(g)+" changes them"
+				} else {
+					ob.Status, ob.Msg = Violated, shortCallee(g)+" changes the files of the object's own segment while it may still hold the old log open or mapped: later reads combine the new index with the old file"
+				}
+				obs = append(obs, ob)
+			}
+		}
+	}
+	if n == 0 {
+		obs = append(obs, Ob{Rule: "R20", Inst: "d:close-before-replace:" + owner.Obj().Name(), Props: []string{"C03", "C08", "C12"}, Pos: "-", Status: Undecided, Msg: "no method of " + owner.Obj().Name() + " changes the files of its own segment"})
+	}
+	return obs
+}
+
+// R28b CONSUME-BOUND (C03): every record the batch reader decodes is decoded where the count of
+// records so far was compared as below the caller's maximum.
+func (p *Prog) consumeBound() []Ob {
+	var obs []Ob
+	dec := map[*ssa.Function]bool{}
+	for _, d := range p.R.RecDecoders {
+		dec[d] = true
+	}
+	for _, fn := range p.Funcs {
+		if !srcFunc(fn) || recvNamed(fn) != p.R.MsgReader || fn.Parent() != nil {
+			continue
+		}
+		for _, b := range fn.Blocks {
+			_, loop := innermostLoop(b)
+			if loop == nil {
+				continue
+			}
+			for _, ins := range b.Instrs {
+				c, ok := ins.(*ssa.Call)
+				if !ok || c.Common().StaticCallee() != nil {
+					continue
+				}
+				isDec := false
+				for _, g := range p.callees(c) {
+					if dec[g] || dec[unwrapSynthetic(g)] {
+						isDec = true
+					}
+				}
+				if !isDec {
+					continue
+				}
+				// the counter: the index of the slice element decoded into
+				var counter ssa.Value
+				for _, a := range c.Common().Args {
+					if ia, ok := a.(*ssa.IndexAddr); ok {
+						counter = ia.Index
+					}
+				}
+				ob := Ob{Rule: "R28", Inst: "b:consume-bound:" + funcLabel(fn), Props: []string{"C03"}, Pos: p.at(c), Func: funcLabel(fn), Nontrivial: true}
+				if counter == nil {
+					ob.Status, ob.Msg = Undecided, "the batch reader does not decode into an element of its result slice"
+					obs = append(obs, ob)
+					continue
+				}
+				bounded := false
+				for _, hb := range fn.Blocks {
+					iff, ok := terminator(hb).(*ssa.If)
+					if !ok {
+						continue
+					}
+					x, y, op, ok := relCond(iff.Cond)
+					if !ok {
+						continue
+					}
+					if stripConv(y) == stripConv(counter) {
+						x, y = y, x
+						switch op {
+						case token.LSS:
+							op = token.GTR
+						case token.GTR:
+							op = token.LSS
+						case token.LEQ:
+							op = token.GEQ
+						case token.GEQ:
+							op = token.LEQ
+						}
+					}
+					if stripConv(x) != stripConv(counter) {
+						continue
+					}
+					if _, isParam := stripConv(canon(y)).(*ssa.Parameter); !isParam {
+						continue
+					}
+					if (op == token.LSS && edgeDominates(hb, 0, b)) || (op == token.GEQ && edgeDominates(hb, 1, b)) {
+						bounded = true
+						ob.Guards = append(ob.Guards, p.at(iff))
+					}
+				}
+				if bounded {
+					ob.Status, ob.Msg = Discharged, "a record is decoded only where count < the caller's maximum was established"
+				} else {
+					ob.Status, ob.Msg = Violated, "a record can be decoded into the batch on a path on which the count was not compared as below the caller's maximum: more than maxCount messages can be returned"
+				}
+				obs = append(obs, ob)
+			}
+		}
+	}
+	return obs
+}
